@@ -23,7 +23,8 @@ RULE = ("random pipelines (subset of the 10 groups, 1-3 models per group, random
 ASSUMPTIONS = ["probe models stand for arbitrary models: ordering does not depend on what a model does",
                "deprecated entry points (exposure_mode etc.) are not driven"]
 REQUIRED_COUNTERS = ["probe_events", "m2_model_calls", "runs_exposure", "runs_observation",
-                     "runs_observation_dask", "yaml_loaded", "debug_nodes_checked"]
+                     "runs_observation_dask", "runs_calibration", "calibration_evaluations_checked", "yaml_loaded",
+                     "debug_nodes_checked"]
 TIMEOUT = {"quick": 600, "thorough": 3000}
 
 MODES = ["exp_py", "exp_py_debug", "exp_py_hier", "exp_yaml", "exp_yaml_debug_hier",
@@ -32,7 +33,7 @@ MODES = ["exp_py", "exp_py_debug", "exp_py_hier", "exp_yaml", "exp_yaml_debug_hi
 
 def plan(tier, seed):
     shards = 16
-    n = 14 if tier == "quick" else 260
+    n = 40 if tier == "quick" else 260
     specs = [{"shard": s, "seed": seed, "kind": "random", "n": n} for s in range(shards)]
     if tier == "thorough":
         specs.append({"shard": 100, "seed": seed, "kind": "pairs", "n": 45})
@@ -293,10 +294,77 @@ def run_case(rec, ctx, index, pspec, n_steps, mode, rng, label):
     rec.case(sig, nontrivial, sample=case)
 
 
+def run_calibration_case(rec, ctx, index, rng):
+    """A 1-island toy calibration: every candidate evaluation is one pipeline run."""
+    import os
+
+    import numpy as np
+    import pyxel
+    from pyxel.calibration import Algorithm, Calibration
+    from pyxel.observation import ParameterValues
+    from pyxel.pipelines import FitnessFunction
+
+    pspec = rand_pipeline(rng)
+    target = first_enabled(pspec)
+    if target is None:
+        rec.count("skipped_calib_no_enabled_probe")
+        return
+    group, model = target
+    model["arguments"]["n"] = 1.0
+    wg = rng.choice(list(pspec))
+    pspec[wg].insert(rng.randint(0, len(pspec[wg])), {"name": f"{wg}_pixw", "func": "vf.probes.writer2",
+                     "arguments": {"plan": {"*": ["pixel+"]}, "seed": rng.randint(0, 99)}, "enabled": True})
+    rows, cols = 2, 3
+    path = os.path.join(rec.tmp, f"target_{index}.npy")
+    np.save(path, np.random.default_rng(index).random((rows, cols)) * 100)
+    key = f"pipeline.{group}.{model['name']}.arguments.n"
+    cal = Calibration(target_data_path=[path],
+                      fitness_function=FitnessFunction(func="pyxel.calibration.fitness.sum_of_abs_residuals"),
+                      algorithm=Algorithm(type="sade", generations=1, population_size=7),
+                      parameters=[ParameterValues(key=key, values="_", boundaries=(0.0, 5.0))],
+                      result_type="pixel", result_fit_range=(0, rows, 0, cols), target_fit_range=(0, rows, 0, cols),
+                      pygmo_seed=rng.randint(1, 9999), num_islands=1, num_evolutions=1)
+    case = {"label": "calibration", "mode": "calib", "pipeline": pspec, "key": key}
+    probes.reset()
+    ctx.mon.reset()
+    try:
+        detector = build.make_detector(build.default_detector_spec("ccd", rows, cols))
+        pyxel.run_mode(mode=cal, detector=detector, pipeline=build.make_pipeline(pspec), with_inherited_coords=True)
+    except Exception as exc:  # noqa: BLE001
+        import traceback
+        rec.violation("C01:calib:unexpected-exception", f"{type(exc).__name__}: {exc} :: {traceback.format_exc()[-600:]}", case, index)
+        return
+    rec.count("runs_calibration")
+    evs = probes.events()
+    rec.count("probe_events", len(evs))
+    groups: dict = {}
+    for e in evs:
+        groups.setdefault(e["det"], []).append(e)
+    exp = build.expected_calls(pspec, 1)
+    for det, seq in groups.items():
+        got = [(e["step"], e["model"], {k: v for k, v in e["kwargs"].items() if not (e["model"] == model["name"] and k == "n")}) for e in seq]
+        want = [(s, n, {k: v for k, v in a.items() if not (n == model["name"] and k == "n")}) for (s, _g, n, a) in exp]
+        rec.count("calibration_evaluations_checked")
+        if got != want:
+            rec.violation("C01:calib:sequence-mismatch", f"candidate evaluation differs: {first_diff(got, want)}", case, index)
+            break
+    m2 = [info for label, info, _t in ctx.mon.calls if label == "ModelFunction.__call__"]
+    rec.count("m2_model_calls", len(m2))
+    if len(m2) != len(evs):
+        rec.violation("C01:calib:monitor-disagreement", f"sys.monitoring saw {len(m2)} model calls, probes saw {len(evs)}", case, index)
+    sig = ("calib", [(g, [(m["name"], m["enabled"]) for m in ms]) for g, ms in pspec.items()])
+    rec.observe("modes", "calib")
+    rec.case(sig, True, sample=case)
+
+
 def run_shard(spec, rec):
     ctx = Ctx()
     kind = spec["kind"]
     if kind == "random":
+        for j in range(1 if spec["n"] < 100 else 6):
+            idx = 10_000 + j
+            if rec.wanted(idx):
+                run_calibration_case(rec, ctx, idx, rec.rng(idx))
         for i in range(spec["n"]):
             if not rec.wanted(i):
                 continue
